@@ -103,7 +103,10 @@ def hsStep (o : Opts) (s : HState) (f : HFrame) : Except HErr (HState × List CF
       | .close code text => .ok (.serverClosing code text, [.closeOk])
       | .openOk => .ok (.done tok, [])
       | _ => .error .frameUnexpected
-    | .serverClosing _ _ | .done _ => .error .frameUnexpected
+    | .serverClosing _ _ => .error .frameUnexpected
+    -- (fix D18) what the server sends right behind OpenOk may arrive in the read that completes the
+    -- handshake: such frames are kept for the established connection, the handshake stays done
+    | .done t => .ok (.done t, [])
 
 /-- How a read ends once its frames have been handed on. -/
 inductive ReadEnd where
